@@ -44,6 +44,9 @@ RULE = ("Four generators into one executor: (1) grammar - statement templates wr
         "replacement; (3) token soup - keyword/number/punctuation/control/high-byte strings up to "
         "255 bytes as direct and numbered lines; (4) files - random bytes and mutated/truncated "
         "valid tokenised, protected, ASCII and BSAVE files through LOAD/RUN/MERGE/CHAIN/BLOAD. "
+        "plus a directed enumeration of every statement taking a name=value / device / path / macro "
+        "string against all boundary shapes of such strings (empty name or value, separator only, "
+        "first, last, doubled, NUL/0xFF/quote and 254-byte halves). "
         "Configurations: syntax advanced/pcjr/tandy, nine video adapters, double, small memory, "
         "text width 40, DBCS codepage, extra devices (second drive, LPT1 file, cassette image); "
         "plus the all-defaults Session() in a child process. Non-trivial: some statement got past "
@@ -119,8 +122,10 @@ class ScratchDir(object):
     @classmethod
     def get(cls):
         sd = cls._inst.get(os.getpid())
-        if sd is None or not os.path.isdir(sd.z):
+        if sd is None:
             sd = cls._inst[os.getpid()] = cls()
+        elif not os.path.isdir(sd.z):
+            sd.close()
         return sd
 
     def path(self, *parts):
@@ -128,9 +133,21 @@ class ScratchDir(object):
 
     def close(self):
         """Empty the tree; the directories stay for the next case."""
+        try:
+            self._empty()
+            if not os.path.isdir(self.z):
+                raise OSError('mount root gone')
+        except OSError:
+            # BASIC removed or replaced the mount root itself (RMDIR "Z:" ...): start afresh
+            shutil.rmtree(self.root, ignore_errors=True)
+            if os.path.lexists(self.root):
+                os.unlink(self.root)
+            os.makedirs(self.z)
+
+    def _empty(self):
         for name in os.listdir(self.root):
             p = os.path.join(self.root, name)
-            if name == 'z':
+            if name == 'z' and os.path.isdir(p) and not os.path.islink(p):
                 for sub in os.listdir(p):
                     q = os.path.join(p, sub)
                     if os.path.isdir(q) and not os.path.islink(q):
@@ -402,21 +419,28 @@ def guarded(what, fn):
                     ''.join(traceback.format_exception(type(e), e, e.__traceback__)[-5:])])
         return False
     return True
-s = Session()                       # every keyword argument at its documented default
+CWD = os.getcwd()
+def new_session():
+    # the default session mounts the current directory; a BASIC line (RMDIR "Z:") may have removed
+    # it, and constructing a session without a working directory is not BASIC input
+    os.makedirs(CWD, exist_ok=True)
+    os.chdir(CWD)
+    return Session()                # every keyword argument at its documented default
+s = new_session()
 for line in job['lines']:
     if not guarded(line, lambda: s.execute(line)):
         try:
             s.close()
         except BaseException:
             pass
-        s = Session()
+        s = new_session()
 for expr in job.get('api', []):
     if not guarded('evaluate ' + expr, lambda: s.evaluate(expr)):
-        s = Session()
+        s = new_session()
 guarded('close', s.close)
 if job.get('interact'):
     # documented-defaults session driven by (empty) standard input: must end by a normal exit
-    s = Session()
+    s = new_session()
     guarded('interact', s.interact)
     guarded('close', s.close)
 json.dump(out, open(report, 'w'))
@@ -777,7 +801,7 @@ def gen_defaults(shard, nshards, tier, seed):
     import random
     rng = random.Random(20240 + seed if tier == 'thorough' else 20240)
     lines = []
-    reps = 1 if tier == 'quick' else 6
+    reps = 1 if tier == 'quick' else 3
     for rep in range(reps):
         for i in range(len(c01gen.STATEMENTS)):
             ent = [0] * 14 if rep == 0 else [rng.randrange(1000) for _ in range(14)]
@@ -797,21 +821,40 @@ def gen_defaults(shard, nshards, tier, seed):
                    'stdin': ['10 PRINT "typed"'] + chunk[:12] + ['RUN', 'SYSTEM']}
 
 
+def gen_specs(shard, nshards, tier, seed):
+    """
+    Directed enumeration: every statement that takes a name<sep>value / device / path / macro
+    string x every boundary shape of such a string (c01gen.spec_pool), 8 statements per session.
+    """
+    sts = c01gen.spec_statements()
+    batches = [sts[i:i + 8] for i in range(0, len(sts), 8)]
+    for j, batch in enumerate(batches):
+        if j % nshards == shard:
+            yield {'u': 'lines', 'cfg': {}, 'files': {'F.TXT': 'x\r\n'},
+                   'steps': [{'m': 'x', 't': t} for t in batch]}
+            # high bytes mean something else under a double-byte codepage
+            if tier == 'thorough' or j % 4 == 0:
+                yield {'u': 'lines', 'cfg': {'codepage': ['932', '874', '936', '949'][j // 4 % 4]},
+                       'files': {'F.TXT': 'x\r\n'}, 'steps': [{'m': 'x', 't': t} for t in batch]}
+
+
 def units(tier):
     # few, larger shards in the quick tier: every shard is a fresh worker process and process
     # start-up/tear-down costs more CPU here than a few hundred cases
     q = tier == 'quick'
     return [
-        Unit('grammar', 'hyp', shards=4 if q else 16, examples={'quick': 600, 'thorough': 20000},
+        Unit('grammar', 'hyp', shards=4 if q else 16, examples={'quick': 600, 'thorough': 7000},
              strategy=strat_grammar, per_case_timeout=12.0),
-        Unit('expr', 'hyp', shards=2 if q else 16, examples={'quick': 320, 'thorough': 6000},
+        Unit('expr', 'hyp', shards=2 if q else 16, examples={'quick': 320, 'thorough': 2000},
              strategy=strat_expr, per_case_timeout=12.0),
-        Unit('mutation', 'hyp', shards=2 if q else 16, examples={'quick': 400, 'thorough': 8000},
+        Unit('mutation', 'hyp', shards=2 if q else 16, examples={'quick': 400, 'thorough': 2500},
              strategy=strat_mutation, per_case_timeout=12.0),
-        Unit('soup', 'hyp', shards=2 if q else 16, examples={'quick': 240, 'thorough': 6000},
+        Unit('soup', 'hyp', shards=2 if q else 16, examples={'quick': 240, 'thorough': 2000},
              strategy=strat_soup, per_case_timeout=12.0),
-        Unit('files', 'hyp', shards=2 if q else 16, examples={'quick': 400, 'thorough': 5000},
+        Unit('files', 'hyp', shards=2 if q else 16, examples={'quick': 400, 'thorough': 1700},
              strategy=strat_file, per_case_timeout=12.0),
+        Unit('specs', 'enum', shards=2 if q else 8, gen=gen_specs, exhaustive=True,
+             per_case_timeout=20.0),
         Unit('defaults', 'enum', shards=2 if q else 8, gen=gen_defaults, per_case_timeout=120.0),
     ]
 
@@ -875,6 +918,29 @@ REGRESSIONS = [
     # escaped.KeyError@program.py:edit  (pending EDIT prompt for a line that was deleted)
     {'u': 'lines', 'cfg': {}, 'steps': [{'m': 'x', 't': '10 PRINT 1'}, {'m': 'x', 't': 'EDIT 10'},
                                         {'m': 'x', 't': 'NEW'}, {'m': 'i', 't': '', 'k': 'SYSTEM\r'}]},
+    # ---- third batch (thorough tier; replays/C01/thorough_*.json) ----
+    # escaped.AttributeError@implementation.py:line_input_
+    _x('OPEN "SCRN:" FOR RANDOM AS #2', 'LINE INPUT#2,T$'),
+    # escaped.ValueError@numbers.py:from_token  (number token cut short, at run time)
+    _f('\xff\x0b\x12\x0a\x00\x91\x1f\x01\x02\x03', 'RUN "P.BAS"'),
+    # escaped.ValueError@program.py:edit  (pending EDIT prompt, line replaced by a shorter one)
+    {'u': 'lines', 'cfg': {}, 'steps': [{'m': 'x', 't': '30 PRINT:PRINT:PRINT:PRINT !'},
+                                        {'m': 'x', 't': 'RUN'}, {'m': 'x', 't': '30 A'},
+                                        {'m': 'i', 't': '', 'k': 'SYSTEM\r'}]},
+    # escaped.error@numbers.py:from_int  (unsigned conversion below -65536)
+    _x('PRINT TAB(-65537)1'),
+    # escaped.error@program.py:renum  (line-number token as last byte of the program)
+    _f('\xffIS\x0e', 'LOAD "P.BAS"', 'RENUM'),
+    # escaped.error@strings.py:collect_garbage / :from_pointer  (CLEAR with too small a memory size)
+    _x('A$="x"+"y"', 'CLEAR ,1,16777216', 'PRINT FRE("")'),
+    _x('10 DEF FNS$(X$)="a"', '20 CLEAR 0,256,', 'RUN', 'CHAIN MERGE "Q.BAS",20,ALL'),
+    # harness artefact, kept as a case: the default session's working directory removed by BASIC
+    {'u': 'defaults', 'lines': ['RMDIR "Z:"', 'SYSTEM', 'PRINT 1'], 'api': ['1']},
+    # ---- fourth batch ----
+    # escaped.ValueError@python3.py:setenvu  (value byte that the codepage maps to U+0000)
+    _x('ENVIRON "A="+CHR$(255)', cfg={'codepage': '932'}),
+    # seeded change caught by C44, now also here: empty variable name reaching os.environ['']
+    _x('ENVIRON "=b"', 'ENVIRON "="', 'N$="":ENVIRON N$+"=x"'),
     # escaped.RecursionError@graphics.py:_draw  (DRAW substring that executes itself)
     _x('SCREEN 1', 'ZS$="XZS$;":DRAW ZS$'),
 ]
